@@ -574,3 +574,253 @@ func ruleConflictWalksOutputs(c *report.Ctx) {
 		c.Fail(sk(f)+":own-outpoints", "anchor lost: removeConflict no longer enumerates (rec.Hash, i)", p.Pos(f.Pos()))
 	}
 }
+
+// ruleInsufficientAgainstRequested (C19/C02): the selection loop gives up when the coins do not cover what it asked for.
+func ruleInsufficientAgainstRequested(c *report.Ctx) {
+	c.Rule("insufficient-against-requested", "in autoConstructTxInAndChangeTxOut the 'not enough funds' test compares what findEligibleUtxos found with the very amount it was asked for in that iteration (target + dust adjustment): comparing with the unadjusted target lets the inner loop raise the adjustment and retry forever while holding the wallet's read lock", 1)
+	f := fn(c, pkgWallet, "WalletManager", "autoConstructTxInAndChangeTxOut")
+	fe := fn(c, pkgWallet, "WalletManager", "findEligibleUtxos")
+	if f == nil || fe == nil {
+		return
+	}
+	for i, s := range calls(f, fe) {
+		call, ok := s.(*ssa.Call)
+		if !ok {
+			continue
+		}
+		asked := call.Call.Args[1]
+		key := siteKey(f, "found-vs-asked", i+1)
+		var found ssa.Value
+		for _, r := range *call.Referrers() {
+			if ex, ok := r.(*ssa.Extract); ok && ex.Index == 2 {
+				found = ex
+			}
+		}
+		if found == nil {
+			c.Fail(key, "anchor lost: the amount found by findEligibleUtxos is not used", posOf(c, s))
+			continue
+		}
+		okCmp, any := false, false
+		an.Instrs(f, func(in ssa.Instruction) {
+			cc := an.CallOf(in)
+			if cc == nil || cc.StaticCallee() == nil || cc.StaticCallee().Name() != "Cmp" || len(cc.Args) != 2 || cc.Args[0] != found {
+				return
+			}
+			any = true
+			if cc.Args[1] == asked {
+				okCmp = true
+			}
+		})
+		switch {
+		case okCmp:
+			c.OK(key, "found.Cmp(<the amount asked for>)", posOf(c, s))
+		case any:
+			c.Fail(key, "the amount found is compared with another value than the one findEligibleUtxos was asked for: with a change below the relay fee and no further coin, the loop sets the dust adjustment and retries without end — the request never answers and, holding w.mu.RLock, blocks every call that needs the write lock", posOf(c, s))
+		default:
+			c.Fail(key, "anchor lost: no comparison of the found amount", posOf(c, s))
+		}
+	}
+}
+
+// ruleNilBytesNotDecoded (C19): a row value that may be absent is not decoded as a fixed-width integer.
+func ruleNilBytesNotDecoded(c *report.Ctx) {
+	p := c.P
+	c.Rule("absent-row-not-decoded", "in TxStore.Rollback a value read with existsRawAddressRecord (nil when the row is absent) reaches readAddressHeight only under a nil test: binary.BigEndian.Uint64(nil) panics and kills the follower", 2)
+	f := fn(c, pkgTxmgr, "TxStore", "Rollback")
+	rd := fn(c, pkgTxmgr, "", "readAddressHeight")
+	ex := fn(c, pkgTxmgr, "", "existsRawAddressRecord")
+	if f == nil || rd == nil || ex == nil {
+		return
+	}
+	for i, s := range calls(f, rd) {
+		key := siteKey(f, "readAddressHeight", i+1)
+		v := an.CallOf(s).Args[0]
+		fromExists := false
+		if e, ok := v.(*ssa.Extract); ok {
+			if call, ok := e.Tuple.(*ssa.Call); ok && call.Call.StaticCallee() == ex {
+				fromExists = true
+			}
+		}
+		if !fromExists {
+			c.OK(key, "argument is not a possibly-absent row", posOf(c, s))
+			continue
+		}
+		if p.ValState(v, s.Block(), nil) == an.NonNil {
+			c.OK(key, "under addrVal != nil", posOf(c, s))
+		} else {
+			c.Fail(key, "the address row read by existsRawAddressRecord is decoded without a nil test: when two payments to a fresh address lie in the rolled-back range the row is already deleted for the second one, readAddressHeight(nil) indexes an empty slice and the follower goroutine dies in the middle of the reorg", posOf(c, s))
+		}
+	}
+}
+
+// ruleRefusalByKeyMaterialOnly (C05): checkPassword refuses a passphrase only on the verdict of the stored key material.
+func ruleRefusalByKeyMaterialOnly(c *report.Ctx) {
+	p := c.P
+	c.Rule("refusal-by-key-material", "AddrManager.checkPassword returns an error only after the salted hash comparison (unlocked) or DeriveKey (locked) rejected the candidate: no syntactic pre-check refuses a passphrase — import paths accept passphrases the create-time pattern does not, and their wallets must stay usable", 2)
+	f := fn(c, pkgKeystore, "AddrManager", "checkPassword")
+	if f == nil {
+		return
+	}
+	n := 0
+	for _, b := range f.Blocks {
+		r, ok := b.Instrs[len(b.Instrs)-1].(*ssa.Return)
+		if !ok {
+			continue
+		}
+		for _, pr := range predsOrNil(b) {
+			if p.ClassifyReturn(r, pr) == an.RetSuccess {
+				continue
+			}
+			n++
+			key := siteKey(f, "refusal", n)
+			gs := p.Guards(b)
+			byMaterial := an.AnyAtom(gs, func(a an.Atom) bool {
+				d := p.Desc(a.X)
+				if a.Y != nil {
+					d += " " + p.Desc(a.Y)
+				}
+				return strings.Contains(d, "DeriveKey") || strings.Contains(d, "bytes.Equal")
+			})
+			if byMaterial {
+				c.OK(key, "after the hash comparison / DeriveKey rejected the candidate", posOf(c, r))
+			} else {
+				c.Fail(key, "checkPassword refuses a candidate on a path where neither the stored passphrase hash nor DeriveKey has judged it: a wallet whose (imported) passphrase does not match the pre-check can no longer sign, export or reveal its mnemonic with the right passphrase", posOf(c, r), an.AtomTexts(gs)...)
+			}
+			break
+		}
+	}
+}
+
+// ruleClearAllKeystores (C05): re-locking after a signature covers every managed keystore.
+func ruleClearAllKeystores(c *report.Ctx) {
+	p := c.P
+	c.Rule("relock-all-keystores", "KeystoreManager.ClearPrivKey calls clearPrivKeys for every entry of managedKeystores (a loop over the map, on every path): the keystore that was unlocked for a signature is found by address, not by the current selection, which may have changed in between", 1)
+	f := fn(c, pkgKeystore, "KeystoreManager", "ClearPrivKey")
+	cpk := fn(c, pkgKeystore, "AddrManager", "clearPrivKeys")
+	if f == nil || cpk == nil {
+		return
+	}
+	key := sk(f) + ":all-managed"
+	ss := calls(f, cpk)
+	if len(ss) == 0 {
+		c.Fail(key, "ClearPrivKey no longer calls clearPrivKeys", p.Pos(f.Pos()))
+		return
+	}
+	ok := false
+	for _, s := range ss {
+		// receiver is the element of a range over km.managedKeystores
+		recv := an.CallOf(s).Args[0]
+		if ex, isEx := recv.(*ssa.Extract); isEx {
+			if nx, isNext := ex.Tuple.(*ssa.Next); isNext {
+				if rg, isR := nx.Iter.(*ssa.Range); isR && strings.HasSuffix(p.Desc(rg.X), "KeystoreManager.managedKeystores") {
+					ok = true
+				}
+			}
+		}
+	}
+	// and no early return before the loop
+	early := false
+	for _, b := range f.Blocks {
+		if _, isRet := b.Instrs[len(b.Instrs)-1].(*ssa.Return); isRet {
+			for _, a := range p.Guards(b) {
+				if strings.Contains(a.Text, "currentKeystore") {
+					early = true
+				}
+			}
+		}
+	}
+	if ok && !early {
+		c.OK(key, "range over managedKeystores, unconditional", posOf(c, ss[0]))
+	} else {
+		c.Fail(key, "ClearPrivKey re-locks only a keystore chosen through the current selection: when the selection changes (UseWallet, asynchronous removal) between two inputs of a signing call, the wallet that was unlocked stays unlocked — its master key, branch keys and per-address keys remain in memory, and a later passphrase check on it wipes the master key of a manager that still counts as unlocked", posOf(c, ss[0]))
+	}
+}
+
+// ruleLastTxBoundInclusive (C07): the parent lookup for the rescan includes the block being scanned.
+func ruleLastTxBoundInclusive(c *report.Ctx) {
+	p := c.P
+	c.Rule("parent-lookup-inclusive", "chainFetcher.FetchLastTxUntilHeight accepts a candidate whose height is <= the requested height: the rescan resolves a parent created earlier in the same block through it", 1)
+	f := fn(c, pkgIfc, "chainFetcher", "FetchLastTxUntilHeight")
+	if f == nil {
+		return
+	}
+	n := 0
+	an.Instrs(f, func(in ssa.Instruction) {
+		b, ok := in.(*ssa.BinOp)
+		if !ok {
+			return
+		}
+		var hPar, fld ssa.Value
+		for _, v := range []ssa.Value{b.X, b.Y} {
+			if par, isPar := v.(*ssa.Parameter); isPar && par.Name() == "height" {
+				hPar = v
+			} else if strings.HasSuffix(p.Desc(v), ".Height") {
+				fld = v
+			}
+		}
+		if hPar == nil || fld == nil {
+			return
+		}
+		n++
+		key := siteKey(f, "height-bound", n)
+		incl := (b.Op == token.LEQ && b.X == fld) || (b.Op == token.GEQ && b.X == hPar) || (b.Op == token.GTR && b.X == fld) || (b.Op == token.LSS && b.X == hPar)
+		// GTR/LSS forms are the negated test (skip when Height > height): accepted only if used as the skip condition
+		if b.Op == token.LEQ && b.X == fld || b.Op == token.GEQ && b.X == hPar {
+			c.OK(key, "Height <= height", posOf(c, in))
+		} else if incl {
+			c.OK(key, "skip while Height > height", posOf(c, in))
+		} else {
+			c.Fail(key, "the candidate test is "+p.Desc(b)+": a previous transaction mined in the very block being rescanned is not found, the batch returns 'continuable' and is re-queued forever — a restored wallet whose history contains a spend of an output created in the same block never leaves the importing state", posOf(c, in))
+		}
+	})
+	if n == 0 {
+		c.Fail(sk(f)+":height-bound", "anchor lost: FetchLastTxUntilHeight no longer compares a height with its bound", p.Pos(f.Pos()))
+	}
+}
+
+// ruleUnregisterBeforeStop (C20): the wallet leaves the chain's listener list before its follower is stopped.
+func ruleUnregisterBeforeStop(c *report.Ctx) {
+	p := c.P
+	c.Rule("unregister-before-stop", "WalletManager.Stop unregisters the notification listener before it stops the follower: the chain calls OnBlockConnected (a blocking send on the follower's queue) holding its own lock, and UnregisterListener needs that lock — with the follower gone and the queue full both wait forever", 1)
+	f := fn(c, pkgWallet, "WalletManager", "Stop")
+	hs := fn(c, pkgWallet, "NtfnsHandler", "Stop")
+	if f == nil || hs == nil {
+		return
+	}
+	var unreg ssa.Instruction
+	an.Instrs(f, func(in ssa.Instruction) {
+		cc := an.CallOf(in)
+		if cc == nil {
+			return
+		}
+		name := ""
+		if cc.IsInvoke() {
+			name = cc.Method.Name()
+		} else if cal := cc.StaticCallee(); cal != nil {
+			name = cal.Name()
+		}
+		if name == "UnregisterListener" {
+			unreg = in
+		}
+	})
+	stops := calls(f, hs)
+	key := sk(f) + ":UnregisterListener-first"
+	switch {
+	case unreg == nil:
+		c.Fail(key, "Stop no longer unregisters the listener", p.Pos(f.Pos()))
+	case len(stops) == 0:
+		c.Fail(key, "anchor lost: Stop no longer stops the handler", p.Pos(f.Pos()))
+	default:
+		ok := true
+		for _, s := range stops {
+			if !instrDominates(unreg, s) {
+				ok = false
+			}
+		}
+		if ok {
+			c.OK(key, "unregistered before NtfnsHandler.Stop()", posOf(c, unreg))
+		} else {
+			c.Fail(key, "the follower is stopped while the wallet is still a registered chain listener: a notifier that finds the block queue full blocks forever holding the chain lock, UnregisterListener then never gets that lock and Stop does not return", posOf(c, unreg))
+		}
+	}
+}
